@@ -168,7 +168,10 @@ def _run_case(ctx, case, rng):
       script.append(('update', qi, int(rng.integers(1, len(pool)))))
     elif r < 0.55:
       script.append(('calibrate', qi))
-    elif r < 0.9:
+    elif r < 0.85:
+      script.append(('quantize', qi))
+    elif r < 0.92:
+      script.append(('edit_statistics', qi))
       script.append(('quantize', qi))
     else:
       script.append(('validate', qi))
@@ -187,6 +190,23 @@ def _run_case(ctx, case, rng):
         with Watch(ctx, 'update_quantization_recipe', model=model):
           q.update_quantization_recipe(rx, OP(sel), cfg, alg)
         ctx.steps.append(['update', qi, [rx, sel, name]])
+      elif kind == 'edit_statistics':
+        # the CALLER edits a calibration result it owns, in place (widening one tensor's range by hand is the documented way to
+        # tune a model); from now on that object HAS the new value, and quantize() must follow it
+        if not cals:
+          continue
+        ci_e = int(rng.integers(len(cals)))
+        keys_e = sorted(cals[ci_e].keys())
+        if not keys_e:
+          continue
+        k_e = keys_e[int(rng.integers(len(keys_e)))]
+        ent = cals[ci_e][k_e]
+        if isinstance(ent, dict) and 'min' in ent and 'max' in ent:
+          ent['min'] = np.asarray(ent['min']) * np.float32(1.5) - np.float32(0.25)
+          ent['max'] = np.asarray(ent['max']) * np.float32(1.5) + np.float32(0.25)
+          pristine[ci_e] = copy.deepcopy(cals[ci_e])
+          ctx.count('statistics_edited_in_place_by_the_caller')
+          ctx.steps.append(['edit_statistics', ci_e, k_e])
       elif kind == 'calibrate':
         if not q.get_quantization_recipe() or not needs_statistics(q):
           continue
